@@ -23,9 +23,66 @@ pub struct Selection {
 
 /// Builds with automatic mask while recording the candidates; returns findings (key, what) and the selection
 pub fn check_selection(input: &[u8], o: &Opts) -> (Vec<(String, String)>, Option<Selection>, Option<u64>) {
+    check_selection_with(input, &|| subject::build(input, o))
+}
+
+/// what happens on the thread / builder before the automatic build that is judged
+#[derive(Clone, Copy, Debug, PartialEq)]
+pub enum Prelude {
+    /// forced-mask builds of the same payload with masks 0 and 7 on fresh builders, then the automatic build
+    ForcedBefore,
+    /// one builder: build at another level, set the level wanted, build again (the second build is judged)
+    SameBuilderOtherLevel,
+    /// one builder: build, change the mode to Byte, build again (the second build is judged)
+    SameBuilderOtherMode,
+}
+
+/// the judged automatic build of (input, level e) after a prelude on the same thread
+pub fn check_selection_after(input: &[u8], e: u8, pre: Prelude) -> (Vec<(String, String)>, Option<Selection>, Option<u64>) {
+    use crate::subject::{classify, guarded, ECLS, MODES};
+    match pre {
+        Prelude::ForcedBefore => {
+            for k in [0u8, 7] {
+                let _ = subject::build(input, &Opts { mode: None, ecl: Some(e), version: None, mask: Some(k) });
+            }
+            check_selection_with(input, &|| subject::build(input, &Opts { mode: None, ecl: Some(e), version: None, mask: None }))
+        }
+        Prelude::SameBuilderOtherLevel | Prelude::SameBuilderOtherMode => {
+            let b = std::cell::RefCell::new(fast_qr::QRBuilder::new(input.to_vec()));
+            let first = guarded(|| {
+                let mut g = b.borrow_mut();
+                if pre == Prelude::SameBuilderOtherLevel {
+                    g.ecl(ECLS[((e + 1) % 4) as usize]);
+                } else {
+                    g.ecl(ECLS[e as usize]);
+                }
+                g.build().map(|_| ())
+            });
+            if first.is_err() {
+                return (vec![], None, None);
+            }
+            check_selection_with(input, &|| {
+                match guarded(|| {
+                    let mut g = b.borrow_mut();
+                    if pre == Prelude::SameBuilderOtherLevel {
+                        g.ecl(ECLS[e as usize]);
+                    } else {
+                        g.mode(MODES[2]);
+                    }
+                    g.build()
+                }) {
+                    Ok(r) => classify(r),
+                    Err(m) => Outcome::Panic(m),
+                }
+            })
+        }
+    }
+}
+
+pub fn check_selection_with(input: &[u8], build: &dyn Fn() -> Outcome) -> (Vec<(String, String)>, Option<Selection>, Option<u64>) {
     let mut out = vec![];
     verif::record_candidates(true);
-    let res = subject::build(input, o);
+    let res = build();
     let cands = verif::take_candidates();
     verif::record_candidates(false);
     let q = match res {
@@ -206,6 +263,43 @@ pub fn run(ctx: &Ctx) -> Collector {
             col.sample(json!({"space": sp.name, "index": i, "input": crate::util::show(&b), "input_len": b.len(), "opts": sp.cases[i].opts.to_json()}));
         }
         col.space(json!({"name": sp.name, "what": sp.describe, "cases": n, "selection_instances": okc.load(Ordering::Relaxed), "exhaustive": true,
+            "violations": col.violation_count.load(Ordering::Relaxed) - viol0, "wall_s": (t0.elapsed().as_secs_f64() * 100.0).round() / 100.0}));
+    }
+    // ---- selection after a history on the same thread / the same builder: the emitted mask of an automatic build
+    // must still be a minimiser (a remembered mask, from a forced build or from an earlier build of the builder,
+    // must not replace the selection)
+    {
+        let t0 = std::time::Instant::now();
+        let viol0 = col.violation_count.load(Ordering::Relaxed);
+        let base = spaces::s_small(&[None], false);
+        let stride = if thorough { 8 } else { 48 };
+        let mut inst: Vec<(Vec<u8>, u8, Prelude)> = vec![];
+        for (i, c) in base.cases.iter().enumerate() {
+            if i % stride == 0 {
+                for pre in [Prelude::ForcedBefore, Prelude::SameBuilderOtherLevel, Prelude::SameBuilderOtherMode] {
+                    inst.push((c.bytes(), (i % 4) as u8, pre));
+                }
+            }
+        }
+        for len in [10usize, 40, 100, 300] {
+            for m in 0..3usize {
+                for pre in [Prelude::ForcedBefore, Prelude::SameBuilderOtherLevel, Prelude::SameBuilderOtherMode] {
+                    inst.push((content(Family::Ctr, m, len), (len % 4) as u8, pre));
+                }
+            }
+        }
+        pool::par_for(inst.len(), |i| {
+            let (input, e, pre) = &inst[i];
+            let (findings, _, digest) = check_selection_after(input, *e, *pre);
+            col.eval(digest);
+            for (k, w) in findings {
+                let mut cj = case_json(input, &Opts { mode: if *pre == Prelude::SameBuilderOtherMode { Some(2) } else { None }, ecl: Some(*e), version: None, mask: None });
+                cj["kind"] = json!("selection-after");
+                cj["prelude"] = json!(format!("{:?}", pre));
+                col.violation((80, i as u64), format!("C11/{}-after-history", k), format!("after {:?}: {}", pre, w), cj);
+            }
+        });
+        col.space(json!({"name": "selection after a history", "what": format!("every {}th input of S_small and 12 longer payloads x 3 preludes on the same thread (forced-mask builds of the same payload first; the same builder built at another level first; the same builder built in another mode first): the automatic build that follows must still emit a minimiser", stride), "cases": inst.len(), "exhaustive": true,
             "violations": col.violation_count.load(Ordering::Relaxed) - viol0, "wall_s": (t0.elapsed().as_secs_f64() * 100.0).round() / 100.0}));
     }
     let bb = BLACKBOX.load(Ordering::Relaxed);
